@@ -36,7 +36,9 @@ def get_local_var_idx(routine, var):
     for pname, ptype in routine.params.items():
         if var == pname:
             return idx
-        idx += get_type_size(context, ptype)
+        # a parameter is always a single reference cell, whatever
+        # the type of the value it refers to
+        idx += 1
     for vname, vtype in routine.local_vars.items():
         if var == vname:
             return idx
@@ -56,11 +58,9 @@ def get_global_var_idx(context, var):
 
 def get_params_size(routine):
     # the number of cells in a call frame the parameters to a routine
-    # need
-    return sum(
-        get_type_size(routine.context, ptype)
-        for ptype in routine.params.values()
-    )
+    # need: each parameter is passed as one reference, also when it
+    # refers to a record
+    return len(routine.params)
 
 def get_local_vars_size(routine):
     # the number of cells in a call frame the local variables of
